@@ -203,6 +203,17 @@ add('C17', 'model_checking',
     TRUSTED + ' The Unicode range is covered by class partition; doctest cases are not generated.',
     'TLA+ spec + TLC model checking + TLC validation of parsed report files of real runs', 'DESIGN.md 5/C17')
 
+add('C07', 'model_checking',
+    'TLC (Channel.tla) checks the child / pipe / parent protocol - stdout lines and fd-2 noise in either program order, '
+    'close stdout, header, names, death at any point with the line in flight cut, bounded pipes, main thread + stderr drain '
+    'thread + parser - for CompleteIsExact, FaultIsError, Reaped and NoHang under fairness; NoStderrThread (deadlock), '
+    'TrustTruncated, SpawnFailureUnrecorded and the header look-alike environment give counterexamples. Every fate of the '
+    'model is forced on the real runner (complete reports with up to 300 / 1000 failing ids in seven spellings, 1 MiB noise '
+    'in five orders, binary and near-header noise, death by exit / signal / unwinding exception in every phase, report cut '
+    'at byte offsets, spawn failure, -j and resume, 60 s bound) and TLC judges each run from the child\'s own event log.',
+    TRUSTED + ' The fate of a child (completed / died / cut / not spawned) is read from its own event log, not from the plan.',
+    'TLA+ spec + TLC model checking (safety + liveness) + spec-derived fault injection on the real runner + TLC validation', 'DESIGN.md 5/C07')
+
 NOT_YET = {
 }
 
